@@ -2,6 +2,7 @@
 from engine import *
 import re
 import provenance
+import accessors
 import tlv, tlvloop
 
 OU = 'lightning::ln::onion_utils::'
@@ -609,3 +610,4 @@ RULES = [
 	('14.n', 'failure codes: BOLT-4 reasons carry the specification codes, internal reasons alias one of them, the decode table knows every BOLT-4 reason', r14n),
 ]
 RULES.append(('14.P', 'panic sites: no reviewed function that parses / handles untrusted input gained an unwrap / expect / explicit panic / bounds-checked index / length-checked copy / division (rules/provenance.py; panic freedom itself is not decided)', lambda F: provenance.panics_for_property(F, 'C14', '14.P')))
+RULES.append(('14.A', 'enum accessors agree across sibling variants: an accessor that returns the payload field `x` for one variant returns it for every variant whose payload carries a field of that name and type (a variant moved to the `=> None` arm) - rules/accessors.py', lambda F: accessors.for_property(F, 'C14', '14.A')))
